@@ -19,7 +19,7 @@ NEW_NAMES = ["New", "Zed", "x-New", "Alpha", "BETA"]
 
 FIRST = [" v\n", "v\n", "  v w  \n", "\tv\n", ": x\n", " #h\n", " \n", "\n", " é漢\n", " a: b\n"]
 CONT = [" c\n", "\tc d\n", "   e \n", " .\n", " #nc\n", " k: v\n", "\tß\n"]
-FCOMMENT = ["", "", "# c\n", "#\n# two\n"]
+FCOMMENT = ["", "", "# c\n", "#\n# two\n", "# blanks at the end  \n", "#\t\n#  x \t\n"]
 ICOMMENT = ["", "", "# ic\n"]
 SEPS = ["\n", "\n\n", " \n", "\n# free\n\n", "# attached\n\n", "\t\n\n"]
 LEADS = ["", "", "\n", "# top\n\n", "\n\n"]
